@@ -81,7 +81,7 @@ CLAIMED = {
         note="Trusted: Coq kernel; numpy primitives of StabilizerState.measure (modelled by hand, tied by exact correspondence); Born rule <-> stabilizer group link checked numerically.",
         technique="Coq proof (group-level measurement lemmas over the elimination invariant) + exhaustive small-domain vm_compute correspondence + numpy oracle"),
     "C15": dict(
-        text="PARTIAL (stabilizer backend only; qutip and projectq are not installed, their engine modules cannot be imported, so no model of them could be tied to code). Coq record EngineLaws (add_fresh returns the old size and appends |0>; absorb = tensor product with the absorbed positions offset; absorb_parts after export = absorb; refusal exactly when the size limit would be exceeded and before any mutation) proved for the model of stabilizerEngine; tie: the real stabilizerEngine driven call-for-call (random sequences <= 20 calls, 1..6 qubits, absorb into empty/non-empty, export/import) with exact get_register_RI comparison in Coq plus the numpy state oracle.",
+        text="PARTIAL (stabilizer backend only; qutip and projectq are not installed, their engine modules cannot be imported, so no model of them could be tied to code). Coq record EngineLaws (add_fresh returns the old size and appends |0>; absorb = tensor product with the absorbed positions offset; absorb_parts after export = absorb; refusal exactly when the size limit would be exceeded and before any mutation) proved for the model of stabilizerEngine; the tableau after absorb generates exactly the product group {a (x) b} with the absorbed qubits behind (C15_absorb_is_product_group), and every call sequence of the interface (gates, both measurement modes and branches, add_fresh, absorb / absorb_parts of full registers) keeps a full stabilizer state of n commuting independent generators (C15_interface_keeps_full_states); tie: the real stabilizerEngine driven call-for-call (random sequences <= 20 calls, 1..6 qubits, absorb into empty/non-empty, export/import) with exact get_register_RI comparison in Coq plus the numpy state oracle.",
         design="9.5/C15 (notes/C15.md)",
         note="Trusted: Coq kernel; the contract is stated once, the qutip/projectq instances are NOT claimed.",
         technique="Coq proof (engine contract record instantiated for the stabilizer engine) + vm_compute correspondence"),
